@@ -139,16 +139,20 @@ class ThermalMotion:
         - len(freq) > 1 and single t
 
         """
-        condition = t > 1.0
+        # 1 / (exp(x) - 1) is written as exp(-x) / (1 - exp(-x)) so that it
+        # goes to zero without overflow for x -> infinity (T -> 0).
+        condition = t > 0
         # Avoid using isinstance with bool to distinguish from int.
         if isinstance(condition, (bool, np.bool_)):
             if condition:
-                return 1.0 / (np.exp(freq * THzToEv / (Kb * t)) - 1)
+                x = freq * THzToEv / (Kb * t)
+                return np.exp(-x) / (-np.expm1(-x))
             else:
                 return 0.0
         else:
             vals = np.zeros(len(t), dtype="double")
-            vals[condition] = 1.0 / (np.exp(freq * THzToEv / (Kb * t[condition])) - 1)
+            x = freq * THzToEv / (Kb * t[condition])
+            vals[condition] = np.exp(-x) / (-np.expm1(-x))
             return vals
 
 
